@@ -72,6 +72,7 @@ type scRun struct {
 	events  []scEvent
 	w       *wal.WAL
 	plan    func(kind string, key []byte) // armed for the next store call of the main caller
+	planPre bool                          // the plan runs before the underlying SetStable takes effect
 	inPlan  int32
 	helpers sync.WaitGroup
 	nextIdx uint64
@@ -90,6 +91,9 @@ func (m *scMeta) GetStable(key []byte) ([]byte, error) {
 	return v, err
 }
 func (m *scMeta) SetStable(key, value []byte) error {
+	// half of the windows open BEFORE the underlying call: the WAL has prepared the call (encoded
+	// the value) and a second client runs before it takes effect
+	m.run.window("preset", key)
 	err := m.inner.SetStable(key, value)
 	m.run.window("set", key)
 	return err
@@ -99,6 +103,10 @@ func (m *scMeta) SetStable(key, value []byte) error {
 func (r *scRun) window(kind string, key []byte) {
 	r.mu.Lock()
 	p := r.plan
+	if p != nil && (kind == "preset") != r.planPre {
+		r.mu.Unlock()
+		return // not the window this plan is for
+	}
 	r.plan = nil
 	r.mu.Unlock()
 	if p == nil || !atomic.CompareAndSwapInt32(&r.inPlan, 0, 1) {
@@ -317,6 +325,7 @@ func execStableConc1(c *ctx, line string) (obs string) {
 	// the window of the main caller's Set; then the main caller writes its value again and reads
 	// (an implementation that remembers "the value last written" must not be fooled by the overlap)
 	if rng.Intn(2) == 0 {
+		run.planPre = false
 		k := bkeys[rng.Intn(len(bkeys))]
 		a, b := []byte(fmt.Sprintf("server-%d", rng.Intn(3))), []byte(fmt.Sprintf("other-%d", rng.Intn(3)))
 		alsoGet := rng.Intn(2) == 0
@@ -404,6 +413,7 @@ func execStableConc1(c *ctx, line string) (obs string) {
 			key = "u:" + uk
 			mainOp = func() { run.call("main", "getu", uk, nil, 0) }
 		}
+		run.planPre = rng.Intn(2) == 0
 		switch rng.Intn(4) {
 		case 0: // no interference
 		case 1:
